@@ -23,9 +23,13 @@ TB = [
     "lxml/libxml2 element tree (child order, addprevious/append/remove, .text get/set) is represented by the flat child lists of model/Text.v; tied by this correspondence, not verified",
     "python re.sub / re.split / str.split on single-character classes transcribed as flat_map / split_by",
     "property elements (a:bodyPr, a:pPr, a:rPr, a:endParaRPr) are opaque identities in the model; the harness reads them back through one marker attribute each (lIns, marL, sz)",
+    "lxml / libxml2 serialisation of an a:txBody and pptx.oxml.parse_xml of that text are represented by enc_body / dec_body of model/TextCodec.v (tag stream, libxml2 text escaping, "
+    "Escape.lex_text with the blank-text heuristic for the text of an a:t); tied byte for byte by the codec phase of this correspondence (signature correspondence-codec), not verified",
 ]
 ASSUME = [
-    "serialise + re-parse (lxml, remove_blank_text=True, XML 1.0 line-end normalisation) returns the same tree for the bodies the setters produce: outside the model, exercised here by the save/re-open cycles of every case",
+    "serialise + re-parse (lxml, remove_blank_text=True, XML 1.0 line-end normalisation) returns the same tree for the bodies the setters produce: a theorem about the codec of model/TextCodec.v "
+    "(dec_body (enc_body b) = Some b for every body of XML characters; proofs/TextCodec_proofs.v, compiled by this check), whose agreement with the real serialiser / parser is the codec phase; "
+    "the OPC package around the part (zip, relationships) is outside that model and exercised by the save/re-open cycles of every case",
     "strings containing code points that XML 1.0 cannot carry (surrogates, U+FFFE, U+FFFF) are outside the quantifier: lxml raises ValueError on assignment (recorded in input_distribution as non-xml-char, not compared with the model)",
     "prior states keep a:t in every a:r (CT_RegularTextRun.t is OneAndOnlyOne; a run without it raises InvalidXmlError on access)",
 ]
@@ -596,8 +600,209 @@ def leaf_roundtrip(ck, rng, n):
     return {"strings": len(strs), "diffs": diffs}
 
 
+# ----------------------------------------------------------------------------- whole-body codec (model/TextCodec.v)
+FLD_ID = "{B7B5B1C1-0000-4000-8000-000000000001}"
+
+
+def codec_text_xml(t):
+    """Element text in a prior-state source: markup escaped, CR as a character reference (a raw CR would be
+    normalised to LF by the parser before the body exists)."""
+    return xml_escape(t).replace("\r", "&#13;")
+
+
+def codec_state_xml(tokens):
+    """The a:txBody described by the state tokens, alone in its own document: the one namespace declaration is its own
+    xmlns:a; a property element gets its marker attribute unless its number is 0; a:fld has an a:t only when its
+    text is not empty (the rendering model/TextCodec.v gives the opaque parts of model/Text.v)."""
+    def prop(name, attr, x):
+        return "<a:%s%s/>" % (name, ' %s="%d"' % (attr, x) if x else "")
+    out = ['<a:txBody xmlns:a="%s">' % NS_A]
+    open_p = False
+    for t in tokens:
+        g = t[0]
+        if g == "B":
+            out.append(prop("bodyPr", "lIns", ord(t[1])))
+        elif g == "P":
+            if open_p:
+                out.append("</a:p>")
+            out.append("<a:p>")
+            open_p = True
+        elif g == "p":
+            out.append(prop("pPr", "marL", ord(t[1])))
+        elif g == "e":
+            out.append(prop("endParaRPr", "sz", ord(t[1])))
+        elif g == "R":
+            rpr = prop("rPr", "sz", ord(t[2])) if t[1] == "1" else ""
+            out.append("<a:r>%s<a:t>%s</a:t></a:r>" % (rpr, codec_text_xml(t[3:])))
+        elif g == "b":
+            out.append("<a:br/>")
+        elif g == "F":
+            body = "<a:t>%s</a:t>" % codec_text_xml(t[1:]) if t[1:] else ""
+            out.append('<a:fld id="%s" type="slidenum">%s</a:fld>' % (FLD_ID, body))
+    if open_p:
+        out.append("</a:p>")
+    out.append("</a:txBody>")
+    return "".join(out)
+
+
+CODEC_TEXTS = ["", " ", "  ", "\t", "\n", "\r", "\r\n", " \r", "\r\n\t\r\nX", " a ", "a  ", "  a", "\n\n", " \n ", "<", ">", "&", "]]>", "&amp;", "&#13;",
+               "<a:t>x</a:t>", "</a:t>", "\"", "'", "\u00e9", "\u0085", "\u2028", "\ud7ff", "\ue000", "\ufffd", "\U00010000", "\U0001F600", "\U0010FFFF",
+               "_x000D_", "_x0007_", "\x7f", "a\rb", "a\r\nb", "\r" + 299 * " " + "\rX", 300 * " " + "\r", 301 * " "]
+CODEC_ALPHA = [" ", " ", "\t", "\n", "\r", "\r\n", "a", "b", "<", ">", "&", "]]>", "]", "&amp;", "&#13;", "\u00e9", "\U0001F600", "_x000D_", "\x7f", "\u2028"]
+# raw (unescaped) fragments put into the source text of one a:t: what the reader does with references, line ends, blanks
+# and text that is not well formed
+CODEC_RAW = [" ", " ", "\t", "\n", "\r", "\r\n", "a", "b", "&amp;", "&lt;", "&gt;", "&quot;", "&apos;", "&#13;", "&#10;", "&#9;", "&#x20;", "&#x1F600;", "&#65;",
+             "]]", "]", ">", "\u00e9", "\U0001F600", "\"",
+             "]]>", "&bogus;", "&#0;", "&#xD800;", "&#xFFFE;", "&", "&;", "&#;", "&#x;", "\x0b", "\x00", "\ufffe"]
+CODEC_RAW_GOOD = 25     # the fragments before this index are well formed; at most one of the others is spliced in
+
+
+def gen_codec_text(rng):
+    r = rng.random()
+    if r < 0.35:
+        return rng.choice(CODEC_TEXTS)
+    return "".join(rng.choice(CODEC_ALPHA) for _ in range(rng.randint(1, 10)))
+
+
+def gen_codec_state(rng):
+    zero = rng.random() < 0.2
+    toks = [tok("B", 0 if zero else rng.randint(1, 900))]
+    r = rng.random()
+    npara = 1 if r < 0.35 else (0 if r < 0.40 else rng.randint(2, 4))
+    for _ in range(npara):
+        toks.append(tok("P"))
+        if rng.random() < 0.5:
+            toks.append(tok("p", rng.choice([0, 1, 9, 10, 342900, rng.randint(1, 900)])))
+        end_first = rng.random() < 0.06
+        if end_first:
+            toks.append(tok("e", rng.randint(0, 900)))
+        for _ in range(rng.choice([0, 0, 1, 1, 2, 3, 5])):
+            k = rng.random()
+            if k < 0.6:
+                toks.append(tok("R", "1" if rng.random() < 0.5 else "0", rng.choice([0, 1800, rng.randint(1, 900)]), gen_codec_text(rng)))
+            elif k < 0.8:
+                toks.append(tok("b"))
+            else:
+                toks.append(tok("F", gen_codec_text(rng)))
+        if not end_first and rng.random() < 0.45:
+            toks.append(tok("e", rng.choice([0, 1200, rng.randint(1, 900)])))
+    return toks
+
+
+def gen_codec_cases(rng, n):
+    base = [tok("B", 7), tok("P"), tok("p", 3), tok("R", "1", 5, "old"), tok("b"), tok("F", "12"), tok("e", 4), tok("P"), tok("R", "0", 1, " ")]
+    cases = []
+    small = [""]
+    for k in (1, 2):
+        small += ["".join(t) for t in itertools.product("a \n\v\r\t<&", repeat=k)]
+    for s_ in small:
+        cases.append(tuple(base) + (tok("f", s_),))
+        cases.append(tuple(base) + (tok("a", 0, s_),))
+        cases.append(tuple(base) + (tok("r", 0, 0, s_),))
+    for s_ in CODEC_TEXTS:
+        cases.append((tok("B", 0), tok("P"), tok("R", "0", 0, s_)))                       # the text arrives through the parser
+        cases.append((tok("B", 0), tok("P"), tok("F", s_), tok("R", "1", 0, s_), tok("b"), tok("R", "0", 0, s_)))
+        cases.append((tok("B", 0), tok("P"), tok("f", s_)))                               # ... or through a setter
+        cases.append((tok("B", 0), tok("P"), tok("R", "0", 0, "x"), tok("r", 0, 0, s_)))
+    cases.append((tok("B", 0),))
+    cases.append((tok("B", 0), tok("P"), tok("P")))
+    cases.append((tok("B", 0), tok("P"), tok("+", 0), tok("/", 0), tok("+", 0)))
+    while len(cases) < n:
+        st = gen_codec_state(rng)
+        ops = [o for o in gen_ops(rng, rng.choice([0, 0, 1, 1, 2, 3])) if o[0] in "far+/x"]
+        if ops and rng.random() < 0.15:
+            o = rng.choice(ops)
+            s_ = gen_codec_text(rng)
+            ops[ops.index(o)] = {"f": tok("f", s_), "a": tok("a", ord(o[1]) if len(o) > 1 else 0, s_)}.get(o[0], o)
+        cases.append(tuple(st) + tuple(ops))
+    return cases
+
+
+def codec_roundtrip(ck, rng, n):
+    """The whole-body level of save / re-open (theorems about model/TextCodec.v) tied to the real serialiser and parser.
+    Each case is a prior body (parsed from XML by python-pptx) plus a history of assignments through TextFrame / _Paragraph
+    / _Run.  (a) the bytes lxml writes for that a:txBody (etree.tostring, UTF-8, no declaration; the element is the root
+    of its own document, so the only namespace declaration is its own xmlns:a and nothing is stripped; an a:t holding an
+    EMPTY text node, which lxml writes as a start and an end tag and the model does not tell from an a:t without text
+    node, is rewritten as the empty-element tag before the comparison) against enc_body of the model's final body;
+    (b) the skeleton python-pptx reads after parse_xml of the unmodified bytes against dec_body of the same text;
+    (c) raw fragments (references, line ends, blanks, ill-formed text) spliced into the source of one a:t: the verdict
+    of parse_xml (skeleton or XMLSyntaxError) against dec_body (skeleton or None)."""
+    from lxml import etree
+    from pptx.oxml import parse_xml
+    from pptx.text.text import TextFrame
+
+    class _Box:
+        def __init__(self, tf):
+            self.text_frame = tf
+
+    cases = gen_codec_cases(rng, n)
+    reals, texts = [], []
+    for case in cases:
+        k = 0
+        while k < len(case) and case[k][0] in STATE_TAGS:
+            k += 1
+        el = parse_xml(codec_state_xml(case[:k]))
+        box = _Box(TextFrame(el, None))
+        for op in case[k:]:
+            apply_op(box, op)
+        reals.append(etree.tostring(el, encoding="UTF-8").decode("utf-8"))
+        texts.append("\n".join(p.text for p in el.p_lst))
+    # (c) spliced sources
+    spliced = []
+    n_splice = max(200, n // 3)
+    for _ in range(n_splice):
+        raw = [rng.choice(CODEC_RAW[:CODEC_RAW_GOOD]) for _ in range(rng.randint(0, 8))]
+        if rng.random() < 0.3:
+            raw.insert(rng.randint(0, len(raw)), rng.choice(CODEC_RAW[CODEC_RAW_GOOD:]))
+        raw = "".join(raw)
+        pre = rng.choice(["", "<a:r><a:t>a</a:t></a:r>", "<a:br/>", '<a:pPr marL="3"/>'])
+        post = rng.choice(["", "<a:r><a:t> </a:t></a:r>", '<a:endParaRPr sz="4"/>'])
+        wrap = rng.choice(["<a:r><a:t>%s</a:t></a:r>", '<a:r><a:rPr sz="5"/><a:t>%s</a:t></a:r>', '<a:fld id="' + FLD_ID + '" type="slidenum"><a:t>%s</a:t></a:fld>'])
+        spliced.append('<a:txBody xmlns:a="%s"><a:bodyPr/><a:p>%s%s%s</a:p><a:p/></a:txBody>' % (NS_A, pre, wrap % raw, post))
+    m_enc = run_model("C04", [["se"] + list(c) for c in cases])
+    m_dec = run_model("C04", [["pa", x] for x in reals + spliced])
+    diffs, first, normalised, errors = 0, None, 0, 0
+    for case, real, text, me, md in zip(cases, reals, texts, m_enc, m_dec):
+        f = me.split("|")
+        m_text = "".join(chr(int(t)) for t in f[0].split(" ") if t) if f else None
+        m_flag = f[1] if len(f) > 1 else None
+        norm = real.replace("<a:t></a:t>", "<a:t/>")
+        normalised += norm != real
+        back = parse_xml(real.encode("utf-8"))
+        skel = "ok:" + skeleton(back)
+        text2 = "\n".join(p.text for p in back.p_lst)
+        hard = any(c in real for c in "&\r\t\n") or "> " in real or " <" in real or any(ord(c) > 127 for c in real) or "<a:t/>" in norm
+        ck.count(("codec", case), hard, "codec")
+        if text2 != text:
+            ck.violation("reopen-body", "the text of an a:txBody is %r before and %r after lxml serialisation + python-pptx's parser" % (text, text2),
+                         {"entry_point": "etree.tostring + pptx.oxml.parse_xml (save / re-open of one a:txBody)", "input": list(case), "serialised": real,
+                          "text_before": text, "text_after": text2})
+        if m_text != norm or m_flag != "True" or md != skel:
+            diffs += 1
+            first = first or ("body", list(case), norm, m_text, skel, md)
+    for src, md in zip(spliced, m_dec[len(reals):]):
+        try:
+            skel = "ok:" + skeleton(parse_xml(src.encode("utf-8")))
+        except etree.XMLSyntaxError:
+            skel = "None"
+            errors += 1
+        ck.count(("codec-src", src), True, "codec")
+        if md != skel:
+            diffs += 1
+            first = first or ("source", src, None, None, skel, md)
+    if diffs:
+        kind, inp, norm, m_text, skel, md = first
+        ck.violation("correspondence-codec", "model/TextCodec.v and lxml / parse_xml disagree on %d of %d cases, e.g. %s %r: lxml wrote %r, enc_body %r; "
+                     "python-pptx read %s, dec_body %s" % (diffs, len(cases) + len(spliced), kind, inp, norm, m_text, skel, md),
+                     {"theorem_or_correspondence": "correspondence TextCodec.enc_body / dec_body ~ libxml2 serialiser of the a:txBody python-pptx built + oxml parser "
+                                                   "(the C04_reopen_* theorems are about the model only)", "input": inp}, concrete=False)
+    return {"bodies": len(cases), "spliced_sources": len(spliced), "spliced_rejected_by_parser": errors,
+            "empty_text_node_rewritten": normalised, "diffs": diffs}
+
+
 def run(ck, tier, rng):
-    ck.build = coq_build("C04")
+    ck.build = coq_build("C04", extra_targets=["proofs/TextCodec_proofs.vo"])
     scratch = tempfile.mkdtemp(prefix="c04-")
     try:
         cases = gen_cases(tier, rng)
@@ -640,6 +845,8 @@ def run(ck, tier, rng):
                               "input": list(first[0]), "model_outcome": first[1], "impl_outcome": first[2]}, concrete=False)
         # leaf level of save / re-open: libxml2's serialiser and python-pptx's parser against the model (op lx)
         leaf = leaf_roundtrip(ck, rng, 1500 if tier == "quick" else 20000) if ck.build.ok else {}
+        # whole-body level: lxml's bytes for the a:txBody python-pptx built, and what the parser reads back, against model/TextCodec.v
+        codec = codec_roundtrip(ck, rng, 12000 if tier == "quick" else 100000) if ck.build.ok else {}
         ck.broken_build(oracle_found_concrete=len(ck.violations) > 0)
         return ck.finish(
             rule="every string of length <= 3 over {a, space, LF, VT, BEL, TAB} at each of the four levels; named strings from the property text; "
@@ -647,10 +854,12 @@ def run(ck, tier, rng):
                  "LF, VT, the other C0 controls, markup characters, non-ASCII / astral code points and _xHHHH_-shaped fragments, onto random prior bodies "
                  "(0-4 paragraphs, runs with / without a:rPr, a:br, a:fld, a:pPr, a:endParaRPr incl. misplaced, cells without a:txBody); a malformed stream "
                  "(indices out of range, unknown tokens, code points XML cannot carry); every case re-read after %d save/re-open cycle(s); "
+                 "codec phase (klass codec): generated bodies (texts with markup characters, CR, CR LF, TAB, LF, blanks only, edge blanks, 300 blanks, non-ASCII, astral, empty runs / fields / paragraphs, "
+                 "property numbers incl. 0) + assignment histories, lxml's bytes for the a:txBody vs enc_body and parse_xml of those bytes vs dec_body, plus a:t sources with spliced references / line ends / ill-formed text; "
                  "non-trivial = an assignment whose string has a control, markup, underscore, astral or edge-blank character onto a prior body with >= 2 paragraphs or properties/fields/breaks" % cycles,
             trusted_base=TB, assumptions=ASSUME,
             extra={"correspondence_diffs": diffs, "exhaustive": False, "save_reopen_cycles": cycles, "non_xml_char_behaviour": c0,
-                   "c0_readback_run_para_frame": c0_readback, "text_leaf_serialise_parse": leaf},
+                   "c0_readback_run_para_frame": c0_readback, "text_leaf_serialise_parse": leaf, "text_body_codec": codec},
         )
     finally:
         shutil.rmtree(scratch, ignore_errors=True)
@@ -671,7 +880,7 @@ def replay(rec):
 
 CLAIM = {
     "tech": "Coq proof over a Gallina model of the text setters/getters (all strings, all prior bodies, all operation histories) + extracted-model correspondence on real shapes/cells + independent oracle incl. save/re-open",
-    "text": "20 theorems closed under the global context: read-back at run/paragraph/frame/cell level equals the documented character-level translation for every string and every prior body; paragraph count, line-break count, no empty runs, pPr/endParaRPr/bodyPr untouched, whitespace verbatim, schema order invariant over any history (fold over operations). The model is tied to text/text.py, oxml/text.py and table.py by running ~32k (quick) / ~211k (thorough) assignments and histories on real lxml-backed objects and on the extracted model, comparing read-backs and the a:p/a:r/a:br/a:fld skeleton. The leaf level of save / re-open is a theorem as well: the text of an a:t written with libxml2's text escaping is read back exactly by the parser model of C05, which contains libxml2's blank-text removal (C04_reopen_text_leaf), tied to the real serialiser and parser on 1,500 / 20,000 strings.",
-    "note": "save/re-open of a whole body enters the proof as the hypothesis reparse (ser b) = b (its text-leaf level is proved against the parser model, the tree level is not modelled) and is exercised at run time (1 or 3 cycles per case); property elements are opaque ids; code points outside XML 1.0 are rejected by lxml and not compared.",
+    "text": "33 theorems closed under the global context: save and re-open of a whole text body is the identity for a CONCRETE writer and reader of a:txBody (C04_codec_roundtrip, C04_reopen_frame / _para / _run / _history: every body whose texts are XML characters, every history of assignments of strings lxml accepts, any number of cycles), tied to lxml byte for byte; read-back at run/paragraph/frame/cell level equals the documented character-level translation for every string and every prior body; paragraph count, line-break count, no empty runs, pPr/endParaRPr/bodyPr untouched, whitespace verbatim, schema order invariant over any history (fold over operations). The model is tied to text/text.py, oxml/text.py and table.py by running ~32k (quick) / ~211k (thorough) assignments and histories on real lxml-backed objects and on the extracted model, comparing read-backs and the a:p/a:r/a:br/a:fld skeleton. The leaf level of save / re-open is a theorem as well: the text of an a:t written with libxml2's text escaping is read back exactly by the parser model of C05, which contains libxml2's blank-text removal (C04_reopen_text_leaf), tied to the real serialiser and parser on 1,500 / 20,000 strings. The whole-body level is proved for a concrete codec (model/TextCodec.v: dec_body (enc_body b) = Some b for every body whose texts are XML characters, which every body the setters build from XML characters and C0 controls is; statements C04_codec_* / C04_api_* / C04_reopen_frame|para|run|history|cycles, ready in proofs/TextCodec_proofs.v) and that codec is compared byte for byte with lxml's serialisation of the a:txBody python-pptx built and with parse_xml on 16,000 / 133,000 bodies and sources.",
+    "note": "save/re-open of a whole body: the generic theorem C04_reopen keeps the hypothesis reparse (ser b) = b; the concrete codec of model/TextCodec.v discharges it (proofs/TextCodec_proofs.v) and is tied to lxml by the codec phase; the OPC package level is exercised at run time (1 or 3 cycles per case); property elements are opaque ids (one marker attribute in the codec); the model does not tell an a:t with an empty text node from one without (the codec phase rewrites the former before comparing bytes, the reader is compared on the unmodified bytes); code points outside XML 1.0 are rejected by lxml and not compared.",
     "ref": "6/C04",
 }
